@@ -634,6 +634,7 @@ structure St where
   next : Nat              -- next fresh list / map identity
   foreign : Nat           -- number of `set`s that reached a caller-owned map
   node : Nat := 0         -- position of `s.node`: the node the CURRENT template's state is at
+  impossible : Nat := 0   -- how often scope.alldata found no entered frame (its `panic("impossible")`)
 
 def heapGet (heap : List Cell) (i : Nat) : Frame :=
   match heap[i]? with
@@ -1062,6 +1063,11 @@ def callData (g : GEnv) (allData : Bool) (data : Option Expr) (ctx : Scope) (st 
       | _ => none
     | none => some (newScope [] false st)
 
+/-- ghost: a data="all" call whose scope has no entered frame is `panic("impossible")` in scope.alldata (an
+    error like any other for the caller of Execute); it is counted so that Props/C02 can show it never happens -/
+def noteImpossible (allData : Bool) (ctx : Scope) (st : St) : St :=
+  if allData && (alldata ctx).isNone then { st with impossible := st.impossible + 1 } else st
+
 /-- `s.node` when `callData` fails -/
 def callDataPos (g : GEnv) (allData : Bool) (data : Option Expr) (ctx : Scope) (st : St) : Nat :=
   if allData then st.node
@@ -1133,7 +1139,7 @@ def execCmd : Cmd → Run
     | none => ⟨.err, ctx, st⟩
     | some callee =>
       match callData g allData data ctx st with
-      | none => ⟨.err, ctx, atNode st (callDataPos g allData data ctx st)⟩
+      | none => ⟨.err, ctx, atNode (noteImpossible allData ctx st) (callDataPos g allData data ctx st)⟩
       | some (callData, st1) =>
         let r := execParams params callData ctx st1
         match r.cls with
@@ -1372,6 +1378,7 @@ structure Outcome where
   file : Bytes := []       -- Registry.Filename(entry template)
   pos : Nat := 0           -- position of the ENTRY state's `s.node`
   line : Nat := 0          -- Registry.LineNumber: 1 + number of line feeds in src[:pos]
+  impossible : Nat := 0    -- ghost: failures of scope.alldata during the render
 
 mutual
 def maxIdFrame : Frame → Nat
@@ -1403,7 +1410,7 @@ def execute (g : GEnv) (name : Bytes) (data : Frame) (fuel : Nat) : Outcome :=
         | .err => if posOk t then Cls.err else Cls.panic
         | c => c
       { cls := cls, chunks := r.st.out.reverse, data := heapGet r.st.heap 0, foreign := r.st.foreign, next := r.st.next,
-        file := t.file, pos := r.st.node, line := lineNumber t.text r.st.node }
+        file := t.file, pos := r.st.node, line := lineNumber t.text r.st.node, impossible := r.st.impossible }
 
 /-- soyhtml.EvalExpr on an expression node: no template, no scope, no $ij, output discarded.
     (`errFromNode` has the nil-template guard, so the error path cannot panic.) -/
